@@ -1,1 +1,2 @@
-// Correspondence suites for property C20. Each suite is a #[test] fn named verif_c20_<suite>.
+// Correspondence suite for property C20 lives in harness/hooks/server.rs (it needs the private
+// router / identity-layer types of `crate::net::server`): verif_c20_http.
